@@ -302,6 +302,11 @@ func (keys_and_cert *KeysAndCert) SigningPublicKey() (types.SigningPublicKey, er
 
 // Certificate returns the certificate.
 func (keys_and_cert *KeysAndCert) Certificate() *certificate.Certificate {
+	if keys_and_cert == nil || keys_and_cert.KeyCertificate == nil {
+		// zero value (also reached through the promoted method of an empty Destination or
+		// RouterIdentity): a nil *Certificate, whose accessors all report "not initialized"
+		return nil
+	}
 	return &keys_and_cert.KeyCertificate.Certificate
 }
 
